@@ -27,6 +27,9 @@ pub enum BackoffCase {
         factor100: u8,
         a: u64,
         b: u64,
+        /// call max_interval() before multiplier() when building the interval function
+        #[serde(default)]
+        cap_first: bool,
     },
     EndToEnd {
         /// None: ReconnectLayer::with_defaults(); Some((initial ms, cap ms))
@@ -89,8 +92,9 @@ fn case_strategy(tier: Tier) -> BoxedStrategy<BackoffCase> {
         prop_oneof![1 => Just(0u8), 1 => Just(100u8), 1 => Just(50u8), 2 => 0u8..=100],
         attempt_strategy(),
         attempt_strategy(),
+        any::<bool>(),
     )
-        .prop_map(|(kind, initial_ns, mult100, cap_ns, factor100, a, b)| BackoffCase::Func {
+        .prop_map(|(kind, initial_ns, mult100, cap_ns, factor100, a, b, cap_first)| BackoffCase::Func {
             kind,
             initial_ns,
             mult100,
@@ -98,6 +102,7 @@ fn case_strategy(tier: Tier) -> BoxedStrategy<BackoffCase> {
             factor100,
             a: a.min(b),
             b: a.max(b),
+            cap_first,
         });
     let (e2e_weight, e2e_attempts) = match tier {
         Tier::Quick => (1u32, 400u32),
@@ -151,6 +156,7 @@ pub fn run_case(case: &BackoffCase) -> Report {
             factor100,
             a,
             b,
+            cap_first,
         } => {
             let m = *mult100 as f64 / 100.0;
             let f = *factor100 as f64 / 100.0;
@@ -168,17 +174,34 @@ pub fn run_case(case: &BackoffCase) -> Report {
             let b_us = *b as usize;
             let eval = |att: usize| -> Result<Duration, String> {
                 let res = catch_unwind(AssertUnwindSafe(|| match kind {
+                    // setter order is part of the case: max_interval before or after multiplier
                     0 => {
-                        let mut e = ExponentialBackoff::new(init).multiplier(m);
-                        if let Some(c) = cap_ns {
-                            e = e.max_interval(dur(*c));
+                        let mut e = ExponentialBackoff::new(init);
+                        if *cap_first {
+                            if let Some(c) = cap_ns {
+                                e = e.max_interval(dur(*c));
+                            }
+                            e = e.multiplier(m);
+                        } else {
+                            e = e.multiplier(m);
+                            if let Some(c) = cap_ns {
+                                e = e.max_interval(dur(*c));
+                            }
                         }
                         e.next_interval(att)
                     }
                     1 => {
-                        let mut e = ExponentialRandomBackoff::new(init, f).multiplier(m);
-                        if let Some(c) = cap_ns {
-                            e = e.max_interval(dur(*c));
+                        let mut e = ExponentialRandomBackoff::new(init, f);
+                        if *cap_first {
+                            if let Some(c) = cap_ns {
+                                e = e.max_interval(dur(*c));
+                            }
+                            e = e.multiplier(m);
+                        } else {
+                            e = e.multiplier(m);
+                            if let Some(c) = cap_ns {
+                                e = e.max_interval(dur(*c));
+                            }
                         }
                         e.next_interval(att)
                     }
